@@ -1,0 +1,27 @@
+//go:build verif
+
+package animation
+
+import (
+	"image"
+	"unsafe"
+)
+
+// Hook for the verification harness (/verif, properties C08 and C18): the ownership assumption of
+// AddFrame. The encoder's model works on values; the real encoder must therefore never keep the
+// caller's picture itself as its reference canvas (a render loop redraws one buffer per frame).
+
+// VerifSharesPrevCanvas reports whether the encoder's reference canvas (prevCanvas) shares any byte
+// of its pixel storage with img.
+func (e *AnimEncoder) VerifSharesPrevCanvas(img *image.NRGBA) bool {
+	if e.prevCanvas == nil || img == nil {
+		return false
+	}
+	a, b := e.prevCanvas.Pix, img.Pix
+	a, b = a[:cap(a)], b[:cap(b)]
+	if len(a) == 0 || len(b) == 0 {
+		return false
+	}
+	pa, pb := uintptr(unsafe.Pointer(&a[0])), uintptr(unsafe.Pointer(&b[0]))
+	return pa < pb+uintptr(len(b)) && pb < pa+uintptr(len(a))
+}
